@@ -24,6 +24,18 @@ package vec
 //@   loop 1 (i) invariant len(res) == len(xs) && fresh(res) && (forall j in 0..i :: res[j] == f(xs[j]))
 //@   assigns nothing
 
+// Vectorize (C09): the returned function is Map with f fixed.
+//@ func Vectorize#lit1
+//@   model real
+//@   ensures [len]   len(result) == len(xs)
+//@   ensures [each]  forall i in 0..len(xs) :: result[i] == f(xs[i])
+//@   ensures [fresh] fresh(result)
+//@   assigns nothing
+
+//@ func Vectorize
+//@   model real
+//@   assigns nothing
+
 //@ func Linspace
 //@   model real
 //@   requires num >= 0
